@@ -66,7 +66,15 @@ fn norm_msg(m: &str) -> String {
         out.push(c);
     }
     let words: Vec<String> = out.split_whitespace().map(|w| if w == "stops" { "stop".to_string() } else { w.to_string() }).take(5).collect();
-    words.join(" ")
+    let mut rule = words.join(" ");
+    // the break count rule fails in two directions with different causes: more breaks expected than used + reported, or fewer
+    if rule == "amount of breaks does not" {
+        let nums: Vec<i64> = m.split('\'').filter_map(|t| t.parse().ok()).collect();
+        if let [expected, got, ..] = nums[..] {
+            rule.push_str(if expected > got { "|expected-more" } else { "|expected-fewer" });
+        }
+    }
+    rule
 }
 
 struct Mutant {
@@ -396,10 +404,15 @@ fn main() {
                             t["stops"].as_array().is_some_and(|st| st.iter().any(|s| s["activities"].as_array().is_some_and(|a| a.len() > 1 && a.iter().any(|x| x["type"].as_str() == Some("reload")))))
                         })
                     });
-                    if n == 0 && dep_stop_job {
-                        "|job-in-departure-stop"
-                    } else if reload_with_jobs {
+                    // the tour named by the message, not just any tour, serves a job inside its departure stop
+                    let dep_stop_job = dep_stop_job
+                        && res.solution["tours"].as_array().is_some_and(|ts| {
+                            ts.iter().filter(|t| t["vehicleId"].as_str() == Some(vid)).any(|t| t["stops"][0]["activities"].as_array().is_some_and(|a| a.len() > 1))
+                        });
+                    if reload_with_jobs {
                         "|tour-has-reload-stop-shared-with-jobs"
+                    } else if n == 0 && dep_stop_job {
+                        "|job-in-departure-stop"
                     } else {
                         "|other"
                     }
